@@ -461,7 +461,23 @@ func TestConvergence(t *testing.T) {
 		for h := uint32(0); h <= Fbefore; h++ {
 			finalIDs[h] = before.ids[h]
 		}
-		ptip := P.Tip()
+		ptip := P.Tip() // the block the peer announced
+		// ... and the peer may have moved on since: its chain keeps growing while the requester syncs towards the announced block
+		moved := 0
+		if rapid.IntRange(0, 2).Draw(t, "peerMovedOn") == 0 {
+			moved = rapid.IntRange(1, 3).Draw(t, "movedBy")
+			for i := 0; i < moved; i++ {
+				if P.SlotOf(P.Tip().Header.Timestamp) >= P.Cfg.SlotsBehind-1 {
+					moved = i
+					break
+				}
+				if _, err := P.Apply(node.Spec{Script: node.Script{Salt: 90 + uint32(i)}}); err != nil {
+					t.Fatalf("P moves on: %v", err)
+				}
+			}
+			hist = append(hist, fmt.Sprintf("peer moved on by %d blocks after announcing its block %d", moved, ptip.Header.Height))
+		}
+		preal := P.Tip()
 		// is P's tip better by LIP-0014?
 		rt := R.Tip().Header
 		better := rt.MaxHeightPrevoted < ptip.Header.MaxHeightPrevoted || (rt.MaxHeightPrevoted == ptip.Header.MaxHeightPrevoted && rt.Height < ptip.Header.Height)
@@ -486,7 +502,7 @@ func TestConvergence(t *testing.T) {
 		}
 		commonBelowFinality := uint32(prefix) < Fbefore
 		pv := view(P)
-		converged := bytes.Equal(R.Tip().Header.ID, ptip.Header.ID)
+		converged := bytes.Equal(R.Tip().Header.ID, ptip.Header.ID) || bytes.Equal(R.Tip().Header.ID, preal.Header.ID)
 		// Which mechanism the protocol prescribes and whether it can succeed (LIP-0014): fast chain switching looks for the
 		// common block among the last 2*n-1 heights and gives up beyond two rounds; block sync needs a height gap > two rounds.
 		gap := int(ptip.Header.Height) - int(rt.Height)
@@ -535,7 +551,7 @@ func TestConvergence(t *testing.T) {
 			return map[string]any{"kind": "convergence", "history": hist, "mode": mode, "converged": converged, "err": fmt.Sprint(perr)}
 		}, "convergence", "mode-"+mode, fmt.Sprintf("converged-%v", converged), fmt.Sprintf("better-%v", better),
 			fmt.Sprintf("better-with-lower-tip-%v", better && ptip.Header.Height < rt.Height), fmt.Sprintf("up-to-date-%v", upToDate),
-			fmt.Sprintf("common-block-is-the-finalized-block-%v", uint32(prefix) == Fbefore),
+			fmt.Sprintf("common-block-is-the-finalized-block-%v", uint32(prefix) == Fbefore), fmt.Sprintf("peer-moved-on-%v", moved > 0),
 			fmt.Sprintf("fork-below-first-search-window-%v", blockOK && fr > 9*nVal))
 	})
 }
